@@ -2025,6 +2025,12 @@ class ReferenceManager:
                 if spec:
                     self._manager.del_spec(spec)
 
+    def track_ref(self, ref):
+        """Start tracking ``ref``, which is created with its parent space"""
+        val = ref.interface
+        if not isinstance(val, Interface):
+            self._valid_to_refs.setdefault(id(val), []).append(ref)
+
     def forget_ref(self, ref):
         """Stop tracking ``ref``, which is deleted with its parent space"""
         val = ref.interface
